@@ -46,6 +46,17 @@ def main():
             if not ok:
                 bad += 1
                 print(out[-2000:])
+    # optional engine: wasm32 + simd128 under node
+    if vlib.find_node():
+        t0 = time.time()
+        try:
+            vlib.build_wasm()
+            print("setup: %-22s ok (%.1fs)" % ("wasm32-simd128", time.time() - t0))
+        except vlib.BuildError as e:
+            bad += 1
+            print("setup: wasm32-simd128 FAILED\n" + str(e)[-2000:])
+    else:
+        print("setup: node not found - wasm32 simd128 stages will be skipped")
     return 1 if bad else 0
 
 
